@@ -96,3 +96,244 @@ def worklist_programs(dev):
         {"op": "transfer", "src": T, "sw": L([(0, 1)]), "dst": P, "dw": L([(0, 1)]), "vols": S(3), "label": None, "wash": "flush"},
     ], diti=True)
     return progs
+
+
+BIG = 2**30  # "exceeds every limit": handed to the code as inf
+
+
+def limit_programs(dev):
+    """Exact limit, one unit beyond, huge values, for every mutator (C02)."""
+    progs = []
+    P, T = 0, 1
+
+    def lw():
+        return [gen.mk_plate("plate", 2, 3, 2, 10, [10, 2, 5, 0, 1, 7]), gen.mk_trough("trough", 3, 2, 1, 12, [12, 0])]
+
+    def prog(name, ops, unit=U1, **kw):
+        h = _hdr(f"limits/{name}", dev, lw(), unit=unit, flags={"comp": False, "norm": False, "robot": False}, **kw)
+        h["ops"] = ops
+        progs.append(h)
+
+    for unit in (U1, Fraction(1, 2**40), Fraction(2**10)):
+        tag = f"u{unit.numerator}_{unit.denominator}"
+        prog(f"add-{tag}", [
+            {"op": "add", "lw": P, "wells": L([(0, 1)]), "vols": S(5), "label": "to the limit"},       # 5 + 5 = 10 = max: ok
+            {"op": "add", "lw": P, "wells": L([(0, 1)]), "vols": S(1), "label": "one beyond"},         # overflow
+            {"op": "add", "lw": P, "wells": L([(1, 1), (1, 2), (1, 1)]), "vols": L([4, 3, 7]), "label": None},  # third overflows (4+7 > 10)
+            {"op": "add", "lw": P, "wells": L([(1, 0)]), "vols": S(BIG), "label": None},
+            {"op": "add", "lw": T, "wells": L([(0, 1), (2, 1)]), "vols": L([6, 6]), "label": None},     # alias: 0+6+6 = 12 = max ok
+            {"op": "add", "lw": T, "wells": L([(1, 1)]), "vols": S(1), "label": None},                  # overflow via alias
+        ], unit=unit)
+        prog(f"remove-{tag}", [
+            {"op": "remove", "lw": P, "wells": L([(0, 0)]), "vols": S(8), "label": "down to min"},      # 10 - 8 = 2 = min ok
+            {"op": "remove", "lw": P, "wells": L([(0, 0)]), "vols": S(1), "label": "below min"},        # underflow
+            {"op": "remove", "lw": P, "wells": L([(1, 2), (0, 1), (1, 2)]), "vols": L([3, 1, 3]), "label": None},  # 7-3-3 = 1 < 2: third underflows
+            {"op": "remove", "lw": P, "wells": L([(1, 1)]), "vols": S(0), "label": "zero from empty"},  # 0 - 0 < min 2: refused
+            {"op": "remove", "lw": T, "wells": L([(0, 0), (1, 0), (2, 0)]), "vols": S(4), "label": None},  # 12 - 12 = 0 < 1: third underflows
+            {"op": "remove", "lw": T, "wells": L([(2, 0)]), "vols": S(BIG), "label": None},
+        ], unit=unit)
+    prog("worklist", [
+        {"op": "dispense", "lw": P, "wells": L([(0, 1), (1, 1)]), "vols": L([5, 10]), "label": "fill"},   # both exactly to max
+        {"op": "dispense", "lw": P, "wells": L([(1, 1)]), "vols": S(1), "label": None},                   # overflow
+        {"op": "aspirate", "lw": P, "wells": L([(0, 1), (1, 1)]), "vols": L([8, 9]), "label": None},      # second: 10 - 9 = 1 < 2
+        {"op": "transfer", "src": T, "sw": L([(0, 0), (1, 0)]), "dst": P, "dw": L([(1, 0), (1, 0)]), "vols": L([4, 5]), "label": "t", "wash": 1},  # 0+4+5 = 9 ok
+        {"op": "transfer", "src": T, "sw": L([(2, 0)]), "dst": P, "dw": L([(1, 0)]), "vols": S(2), "label": "over", "wash": 1},  # 9 + 2 > 10
+        {"op": "distribute", "src": T, "col": 0, "dst": P, "dw": L([(0, 2), (1, 2)]), "vol": 1, "label": "d"},   # trough 12-9-2(asp)=... judged by spec
+        {"op": "distribute", "src": T, "col": 0, "dst": P, "dw": L([(0, 2), (1, 2)]), "vol": 5, "label": "d2"},
+    ], wlmax=20)
+    return progs
+
+
+def fault_programs(dev):
+    """One program per abort point of the multi-step operations (C03)."""
+    progs = []
+    P, T = 0, 1
+
+    def lw():
+        return [gen.mk_plate("plate", 2, 3, 1, 10, [6, 0, 3, 0, 0, 9]), gen.mk_trough("trough", 4, 2, 2, 40, [30, 5])]
+
+    def prog(name, ops, **kw):
+        h = _hdr(f"faults/{name}", dev, lw(), flags={"comp": True, "norm": False}, **kw)
+        h["ops"] = ops
+        progs.append(h)
+
+    warm = {"op": "transfer", "src": T, "sw": L([(0, 0)]), "dst": P, "dw": L([(1, 0)]), "vols": S(4), "label": "warm up", "wash": 1}
+    prog("transfer-underflow-2nd", [warm, {"op": "transfer", "src": P, "sw": L([(0, 0), (0, 1)]), "dst": P, "dw": L([(1, 1), (1, 1)]),
+                                         "vols": L([2, 3]), "label": "u", "wash": 1, "pby": "source"}])       # A02 holds 3, min 1
+    prog("transfer-overflow-2nd", [warm, {"op": "transfer", "src": T, "sw": L([(0, 0), (1, 0)]), "dst": P, "dw": L([(1, 1), (1, 2)]),
+                                        "vols": L([3, 2]), "label": "o", "wash": "flush"}])                     # B03 holds 9, max 10
+    prog("transfer-split-2nd-partition", [warm, {"op": "transfer", "src": T, "sw": L([(0, 0), (1, 0)]), "dst": P, "dw": L([(0, 1), (1, 1)]),
+                                               "vols": L([9, 12]), "label": "split", "wash": 1}], wlmax=5)    # B02: 0 + 12 > 10 in a later partition
+    prog("transfer-oversized-nosplit", [warm, {"op": "transfer", "src": T, "sw": L([(0, 0), (1, 0)]), "dst": P, "dw": L([(0, 1), (1, 1)]),
+                                             "vols": L([2, 7]), "label": "big", "wash": 1}], wlmax=5, autosplit=False)
+    prog("distribute-underflow", [warm, {"op": "distribute", "src": T, "col": 1, "dst": P, "dw": L([(0, 1), (1, 1), (0, 2)]), "vol": 2, "label": "du"}])  # 5 - 6 < 2
+    prog("distribute-overflow-2nd", [warm, {"op": "distribute", "src": T, "col": 0, "dst": P, "dw": L([(0, 1), (1, 2)]), "vol": 2, "label": "do"}])      # B03 9 + 2 > 10
+    prog("distribute-oversized", [warm, {"op": "distribute", "src": T, "col": 0, "dst": P, "dw": L([(0, 1)]), "vol": 6, "label": "dz"}], wlmax=5)
+    prog("aspirate-underflow-2nd", [warm, {"op": "aspirate", "lw": P, "wells": L([(0, 0), (0, 1)]), "vols": L([2, 3]), "label": "a"}])
+    prog("dispense-overflow-2nd", [warm, {"op": "dispense", "lw": P, "wells": L([(0, 1), (1, 2)]), "vols": L([2, 2]), "label": "d"}])
+    prog("aspirate-oversized-2nd", [warm, {"op": "aspirate", "lw": T, "wells": L([(0, 0), (1, 0)]), "vols": L([3, 7]), "label": "a"}], wlmax=5)
+    prog("dispense-oversized", [warm, {"op": "dispense", "lw": T, "wells": L([(0, 0)]), "vols": S(6), "label": None}], wlmax=5)
+    return progs
+
+
+def shape_programs(dev):
+    """Argument shapes on non-square geometries (C04)."""
+    progs = []
+    P, T = 0, 1
+
+    def lw():
+        return [gen.mk_plate("plate", 4, 6, 0, 500, [20] * 24), gen.mk_trough("trough", 5, 3, 0, 900, [300, 300, 0])]
+
+    def prog(name, ops):
+        h = _hdr(f"shapes/{name}", dev, lw(), wlmax=950, flags={"comp": False, "norm": False})
+        h["ops"] = ops
+        h["pres"] = [{"wells": "ndarray", "vols": "ndarray"}, {}, {"wells": "list", "vols": "ndarray"}, {"wells": "tuple", "vols": "tuple"}] * 3
+        progs.append(h)
+
+    full = [[(r, c) for c in range(6)] for r in range(4)]
+    vfull = [[r * 6 + c + 1 for c in range(6)] for r in range(4)]
+    sl = [[(r, c) for c in (1, 2, 4)] for r in (0, 3)]
+    tfull = [[(r, c) for c in range(3)] for r in range(5)]
+    prog("full-plate", [
+        {"op": "add", "lw": P, "wells": M(full), "vols": M(vfull), "label": "ramp"},
+        {"op": "remove", "lw": P, "wells": M(sl), "vols": M([[1, 2, 3], [4, 5, 6]]), "label": "slice"},
+        {"op": "remove", "lw": P, "wells": M(sl), "vols": S(2), "label": "slice scalar"},
+        {"op": "add", "lw": P, "wells": M(sl), "vols": L([1, 2, 3, 4, 5, 6]), "label": "2d wells, flat volumes"},
+        {"op": "aspirate", "lw": P, "wells": M(full), "vols": M(vfull), "label": "asp ramp"},
+        {"op": "dispense", "lw": P, "wells": M([[(0, 0), (0, 1)]]), "vols": M([[7, 9]]), "label": "row"},
+        {"op": "dispense", "lw": P, "wells": M([[(0, 0)], [(1, 0)], [(2, 0)]]), "vols": M([[1], [2], [3]]), "label": "col"},
+    ])
+    prog("trough-alias", [
+        {"op": "remove", "lw": T, "wells": M(tfull), "vols": S(10), "label": "all virtual wells"},    # each column charged 5 times
+        {"op": "add", "lw": T, "wells": M(tfull), "vols": M([[1, 2, 3]] * 5), "label": "2d on trough"},
+        {"op": "aspirate", "lw": T, "wells": L([(4, 0), (0, 0), (2, 1), (4, 0)]), "vols": L([5, 6, 7, 8]), "label": None},
+        {"op": "dispense", "lw": T, "wells": L([(3, 2), (1, 2)]), "vols": L([11, 13]), "label": None},
+        {"op": "transfer", "src": T, "sw": M([[(0, 0), (0, 1)], [(1, 0), (1, 1)], [(2, 0), (2, 1)]]), "dst": P,
+         "dw": M([[(0, 0), (0, 5)], [(1, 0), (1, 5)], [(2, 0), (2, 5)]]), "vols": M([[1, 4], [2, 5], [3, 6]]), "label": "2d transfer", "wash": 1},
+        {"op": "add", "lw": P, "wells": L([(0, 0), (0, 0), (0, 0)]), "vols": L([1, 2, 3]), "label": "thrice"},
+    ])
+    prog("mismatch", [
+        {"op": "add", "lw": P, "wells": L([(0, 0), (1, 0), (2, 0)]), "vols": L([1, 2]), "label": "too few"},
+        {"op": "remove", "lw": P, "wells": L([(0, 0), (1, 0)]), "vols": L([1, 2, 3]), "label": "too many"},
+        {"op": "add", "lw": P, "wells": M([[(0, 0), (0, 1)], [(1, 0), (1, 1)]]), "vols": L([1, 2, 3]), "label": "2x2 vs 3"},
+        {"op": "aspirate", "lw": P, "wells": L([(0, 0), (1, 0), (2, 0)]), "vols": L([1, 2]), "label": "asp too few"},
+    ])
+    return progs
+
+
+def naming_programs():
+    """Default / partial / explicit component names for many geometries (C05 naming rule, C20 initial state)."""
+    progs = []
+    k = 0
+    for (R, C) in [(1, 1), (2, 1), (2, 3), (3, 2), (8, 12), (5, 7)]:
+        n = R * C
+        for pattern in ("default", "partial", "explicit", "shared"):
+            init = [((i * 7) % 5) for i in range(n)]
+            if pattern == "default":
+                names = None
+            elif pattern == "partial":
+                names = [(f"n{i}" if (v > 0 and i % 2 == 0) else None) for i, v in enumerate(init)]
+            elif pattern == "explicit":
+                names = [(f"n{i}" if v > 0 else None) for i, v in enumerate(init)]
+            else:
+                names = [("same" if v > 0 else None) for v in init]
+            h = _hdr(f"naming/plate{R}x{C}-{pattern}", "evo", [gen.mk_plate("stocks", R, C, 0, 10, init, names)])
+            h["ops"] = []
+            progs.append(h)
+    for (V, C) in [(1, 1), (4, 1), (1, 3), (8, 4), (16, 2)]:
+        for pattern in ("default", "partial", "explicit"):
+            init = [((i * 3) % 4) * 5 for i in range(C)]
+            if C == 1:
+                init = [5]
+            if pattern == "default":
+                names = None
+            elif pattern == "partial":
+                names = [("water" if (v > 0 and i % 2 == 0) else None) for i, v in enumerate(init)]
+            else:
+                names = [(f"liq{i}" if v > 0 else None) for i, v in enumerate(init)]
+            h = _hdr(f"naming/trough{V}x{C}-{pattern}", "fluent", [gen.mk_trough("media", V, C, 0, 50, init, names)])
+            h["ops"] = []
+            progs.append(h)
+    return progs
+
+
+def permutation_programs(dev, n):
+    """Every permutation of a triple list whose sort order differs from the input order in both lists (C07, C18)."""
+    import itertools
+
+    progs = []
+    P, T = 0, 1
+    src = [(2, 3), (0, 0), (1, 1), (0, 3)][:n]
+    dst = [(0, 2), (2, 0), (1, 2), (0, 0)][:n]
+    vol = [7, 2, 12, 3][:n]
+    for pi, perm in enumerate(itertools.permutations(range(n))):
+        for pby in ("source", "destination"):
+            h = _hdr(f"perm/{n}-{pi}-{pby}", dev, base_labware(), wlmax=5, flags={"comp": False, "norm": False})
+            # first fill the plate so that every source well can afford its volume
+            h["ops"] = [
+                {"op": "dispense", "lw": P, "wells": L(src), "vols": S(13), "label": None},
+                {"op": "transfer", "src": P, "sw": L([src[i] for i in perm]), "dst": P, "dw": L([dst[i] for i in perm]),
+                 "vols": L([vol[i] for i in perm]), "label": f"perm {pi}", "wash": 1, "pby": pby},
+            ]
+            progs.append(h)
+    return progs
+
+
+def reject_programs(dev):
+    """Malformed transfer arguments must be rejected, nothing pipetted (C07 iv)."""
+    P, T = 0, 1
+    progs = []
+    cases = [
+        ("len-2-3", L([(0, 0), (1, 0)]), L([(0, 1), (1, 1), (2, 1)]), L([1, 1])),
+        ("len-vols", L([(0, 0), (1, 0)]), L([(0, 1), (1, 1)]), L([1, 1, 1])),
+        ("len-3-2-3", L([(0, 0), (1, 0), (2, 0)]), L([(0, 1), (1, 1)]), L([1, 1, 1])),
+        ("negative", L([(0, 0), (0, 0)]), L([(0, 1), (1, 1)]), L([-1, 2])),
+        ("negative-scalar", L([(0, 0)]), L([(0, 1)]), S(-3)),
+    ]
+    for name, sw, dw, v in cases:
+        h = _hdr(f"reject/{name}", dev, base_labware(), flags={"comp": False, "norm": False})
+        h["ops"] = [{"op": "transfer", "src": P, "sw": sw, "dst": P, "dw": dw, "vols": v, "label": "bad", "wash": 1},
+                    {"op": "transfer", "src": P, "sw": L([(0, 0)]), "dst": P, "dw": L([(0, 2)]), "vols": S(1), "label": "fine", "wash": 1}]
+        progs.append(h)
+    h = _hdr("reject/mode", dev, base_labware(), flags={"comp": False, "norm": False})
+    h["ops"] = [{"op": "transfer", "src": P, "sw": L([(0, 0)]), "dst": P, "dw": L([(0, 2)]), "vols": S(1), "label": "m", "wash": 1, "pby": "column"}]
+    progs.append(h)
+    return progs
+
+
+def history_programs(dev):
+    """Histories with zero moves, same-labware operations, split volumes and all kinds of labels (C11)."""
+    P, T, Sx = 0, 1, 2
+    progs = []
+    ops = [
+        {"op": "add", "lw": P, "wells": L([(0, 1), (1, 1)]), "vols": L([3, 4]), "label": "added"},
+        {"op": "remove", "lw": P, "wells": L([(0, 1)]), "vols": S(1), "label": None},
+        {"op": "aspirate", "lw": T, "wells": L([(0, 0), (1, 0)]), "vols": L([2, 0]), "label": "asp"},
+        {"op": "dispense", "lw": P, "wells": L([(2, 2)]), "vols": S(0), "label": ""},
+        {"op": "transfer", "src": T, "sw": L([(0, 0), (1, 1)]), "dst": P, "dw": L([(0, 2), (1, 2)]), "vols": L([0, 0]), "label": "moves nothing", "wash": 1},
+        {"op": "transfer", "src": T, "sw": L([(0, 0), (1, 1), (2, 0)]), "dst": P, "dw": L([(0, 2), (1, 2), (2, 2)]), "vols": L([0, 12, 3]), "label": "split", "wash": 1},
+        {"op": "transfer", "src": P, "sw": L([(0, 0), (1, 1)]), "dst": P, "dw": L([(2, 0), (2, 1)]), "vols": L([2, 1]), "label": "within", "wash": "reuse"},
+        {"op": "transfer", "src": P, "sw": L([(1, 2)]), "dst": P, "dw": L([(1, 2)]), "vols": S(11), "label": None, "wash": "flush"},
+        {"op": "distribute", "src": T, "col": 0, "dst": P, "dw": L([(0, 3), (2, 3)]), "vol": 2, "label": "dist"},
+        {"op": "distribute", "src": T, "col": 1, "dst": T, "dw": L([(0, 2)]), "vol": 3, "label": ""},
+        {"op": "transfer", "src": T, "sw": L([(3, 0)]), "dst": Sx, "dw": L([(0, 1)]), "vols": S(0), "label": None, "wash": 1},
+        {"op": "transfer", "src": T, "sw": L([(3, 0)]), "dst": Sx, "dw": L([(0, 1)]), "vols": S(6), "label": "two\nlines", "wash": 1},
+    ]
+    h = _hdr("history/long", dev, base_labware(), wlmax=5, flags={"comp": False, "norm": False, "fullhist": True})
+    h["ops"] = ops
+    progs.append(h)
+    return progs
+
+
+def base_programs():
+    """The generic BaseWorklist refuses operations that need device specific numbering (C16)."""
+    P, T = 0, 1
+    h = _hdr("base/refuse", "base", base_labware(), flags={"comp": False, "norm": False, "robot": False})
+    h["ops"] = [
+        {"op": "aspirate", "lw": P, "wells": L([(0, 0)]), "vols": S(0), "label": None},
+        {"op": "transfer", "src": T, "sw": L([(0, 0)]), "dst": P, "dw": L([(0, 1)]), "vols": S(2), "label": "t", "wash": 1},
+        {"op": "distribute", "src": T, "col": 0, "dst": P, "dw": L([(0, 1), (1, 1)]), "vol": 2, "label": "d"},
+        {"op": "aspirate", "lw": P, "wells": L([(0, 0)]), "vols": S(2), "label": None},
+        {"op": "dispense", "lw": P, "wells": L([(0, 1)]), "vols": S(2), "label": None},
+    ]
+    return [h]
